@@ -175,7 +175,7 @@ def plan(tier, seed, excl):
     t += [('catalogue-grids', {'shard': i, 'of': 2}) for i in range(2)]
     t += [('scalars', {'shard': i, 'n': 6000 if q else 80000}) for i in range(6)]
     t += [('sizes', {'shard': i, 'of': 8, 'tier': tier}) for i in range(8)]
-    t.append(('fixed-offset', {}))
+    t += [('fixed-offset', {'order': k}) for k in range(3)]
     t += [('grids', {'shard': i, 'n': 2500 if q else 40000}) for i in range(16)]
     return t
 
@@ -221,7 +221,7 @@ def run(part, args, env):
                 acc.violation(v)
         acc.exhaustive['every kind sample x every position x versions'] = True
     elif part == 'fixed-offset':
-        rt.fixed_offset_part(acc, 'json', 'ref')
+        rt.fixed_offset_part(acc, 'json', 'ref', args.get('order', 0))
     elif part == 'sizes':
         from .c01 import sizes_part
         sizes_part(acc, args, check_doc)
@@ -250,6 +250,8 @@ def run(part, args, env):
 
 
 def replay(stage, case):
+    if case['kind'] == 'fixed-offset' and 'upto' in case:
+        return rt.check_fixed_offset_seq(case, 'json', 'ref')
     if case['kind'] == 'fixed-offset':
         return rt.check_fixed_offset(case, 'json', 'ref')
     if case['kind'] == 'after-failed-dump':
